@@ -110,7 +110,9 @@ func (s *Server) HandleIDPInitiated(w http.ResponseWriter, r *http.Request) {
 		}
 	}
 
-	s.idpConfigMu.RLock()
-	defer s.idpConfigMu.RUnlock()
+	// Do not hold idpConfigMu here: ServeIDPInitiated calls back into
+	// GetServiceProvider, which takes the read lock itself. Acquiring a
+	// sync.RWMutex read lock recursively deadlocks as soon as a writer
+	// (a service update) queues between the two acquisitions.
 	s.IDP.ServeIDPInitiated(w, r, shortcut.ServiceProviderID, relayState)
 }
